@@ -200,7 +200,7 @@ func constructorDefaults(dir, pkg, typ string, exprs map[string]string) map[stri
 	env, _ := pkgConsts(dir)
 	// time units for Duration defaults (nanoseconds)
 	for k, v := range map[string]int64{"Nanosecond": 1, "Microsecond": 1000, "Millisecond": 1000000, "Second": 1000000000, "Minute": 60000000000} {
-		env["time."+k] = constVal{n: v}
+		env["time."+k] = constVal{N: v}
 	}
 	for _, fn := range sortedNames(files) {
 		im := importMap(files[fn])
@@ -259,7 +259,7 @@ func evalDefault(e ast.Expr, env map[string]constVal) []string {
 		}
 	case *ast.SelectorExpr:
 		if v, ok := env[exprString(x)]; ok {
-			return []string{strconv.FormatInt(v.n, 10)}
+			return []string{strconv.FormatInt(v.N, 10)}
 		}
 	case *ast.BinaryExpr:
 		// a * time.Second
@@ -276,12 +276,12 @@ func evalDefault(e ast.Expr, env map[string]constVal) []string {
 	}
 	if v, ok := evalConst(e, env); ok {
 		switch {
-		case v.isStr:
-			return []string{v.s}
-		case v.isBool:
-			return []string{strconv.FormatBool(v.b)}
+		case v.IsStr:
+			return []string{v.S}
+		case v.IsBool:
+			return []string{strconv.FormatBool(v.B)}
 		default:
-			return []string{strconv.FormatInt(v.n, 10)}
+			return []string{strconv.FormatInt(v.N, 10)}
 		}
 	}
 	return nil
@@ -560,10 +560,10 @@ func resolveConstRef(e ast.Expr, pkg string, imports map[string]string) (string,
 	}
 	env, _ := pkgConsts(dir)
 	v, ok := env[name]
-	if !ok || !v.isStr {
+	if !ok || !v.IsStr {
 		return "", false
 	}
-	return v.s, true
+	return v.S, true
 }
 
 func buildC19Table() *c19Table {
@@ -788,8 +788,8 @@ func buildPlatformEntries() []c19PlatEntry {
 					cc := c.(*ast.CaseClause)
 					for _, lbl := range cc.List {
 						e := c19PlatEntry{constName: exprString(lbl)}
-						if v, ok := evalConst(lbl, env); ok && v.isStr {
-							e.name = v.s
+						if v, ok := evalConst(lbl, env); ok && v.IsStr {
+							e.name = v.S
 						}
 						for _, st := range cc.Body {
 							ast.Inspect(st, func(m ast.Node) bool {
@@ -809,9 +809,9 @@ func buildPlatformEntries() []c19PlatEntry {
 								case *ast.CallExpr:
 									fs := exprString(y.Fun)
 									if fs == "panic" && len(y.Args) == 1 {
-										if v, ok := evalConst(y.Args[0], nil); ok && v.isStr {
-											if i := strings.Index(v.s, "must be "); i >= 0 && e.documented == "" {
-												e.documented = strings.TrimSpace(v.s[i+len("must be "):])
+										if v, ok := evalConst(y.Args[0], nil); ok && v.IsStr {
+											if i := strings.Index(v.S, "must be "); i >= 0 && e.documented == "" {
+												e.documented = strings.TrimSpace(v.S[i+len("must be "):])
 											}
 										}
 									}
